@@ -164,7 +164,8 @@ def build(spec):
     cls = {"Structure": Structure, "PDFFitStructure": PDFFitStructure}[spec["cls"]]
     s = cls()
     if spec.get("preload"):
-        s.readStr(spec["preload"]["text"], spec["preload"]["format"])
+        with quiet():
+            s.readStr(spec["preload"]["text"], spec["preload"]["format"])
     if spec.get("lattice") is not None:
         s.lattice = Lattice(*spec["lattice"])
     for a in spec.get("atoms", []):
@@ -252,7 +253,7 @@ FIXED_READ_CASES = [
     {"prior": {"cls": "Structure", "atoms": [{"el": "Ni", "xyz": [0, 0, 0], "label": "", "occ": 1.0, "U": None}],
                "lattice": None, "title": "no lattice", "pdffit": None, "extras": {}, "preload": None, "lattice_none": True},
      "text": "2\nbroken\nC 0 0\n", "format": "xyz", "entry": "str", "filename": "bad.xyz", "note": "invalid xyz into lattice None"},
-    # witness of C16_read_none_result_refuted: P_cif returns None for CIF text without atom sites
+    # P_cif returns None for CIF text without atom sites: the target must end up like a new object
     {"prior": {"cls": "Structure", "atoms": [{"el": "Ni", "xyz": [0, 0, 0], "label": "", "occ": 1.0, "U": None}],
                "lattice": [3.52, 3.52, 3.52, 90, 90, 90], "title": "nickel", "pdffit": None, "extras": {}, "preload": None},
      "text": "data_empty\n_cell_length_a 5\n", "format": "cif", "entry": "str", "filename": "empty.cif", "note": "cif without atom sites"},
@@ -291,10 +292,25 @@ def rand_read_case(rng, i, texts):
 # running one read case on the real code
 # ----------------------------------------------------------------------------------------------
 
+class quiet:
+    """PyCifRW prints `SYNTAX ERROR AT LINE ...` chatter on stdout / stderr; keep it out of the check output."""
+
+    def __enter__(self):
+        import io
+        import sys
+        self.saved = (sys.stdout, sys.stderr)
+        sys.stdout, sys.stderr = io.StringIO(), io.StringIO()
+
+    def __exit__(self, *a):
+        import sys
+        sys.stdout, sys.stderr = self.saved
+
+
 def do_read(s, case, path):
-    if case["entry"] == "str":
-        return s.readStr(case["text"], case["format"])
-    return s.read(path, case["format"])
+    with quiet():
+        if case["entry"] == "str":
+            return s.readStr(case["text"], case["format"])
+        return s.read(path, case["format"])
 
 
 def under_cap(ctx, key):
@@ -306,8 +322,9 @@ def under_cap(ctx, key):
 def probe_none(case, path):
     from diffpy.structure.parsers import getParser
     try:
-        p = getParser(case["format"])
-        r = p.parse(case["text"]) if case["entry"] == "str" else p.parseFile(path)
+        with quiet():
+            p = getParser(case["format"])
+            r = p.parse(case["text"]) if case["entry"] == "str" else p.parseFile(path)
         return r is None
     except Exception:
         return False
@@ -361,8 +378,7 @@ def real_read_case(ctx, case, report=True):
             if not none_result:
                 none_result.append(probe_none(case, path))
             if none_result[0]:
-                key = "parser-returned-none:" + key.split(":", 1)[1]
-                what += "  [the parser returned None for this source: the target keeps its atoms and lattice]"
+                what += "  [the parser returned None for this source]"
         found.append(key)
         if report and under_cap(ctx, key):
             d = {"case": short(case)}
@@ -550,7 +566,8 @@ Definition enc_w (r : outcome) : list Z :=
 Definition const_parser (out : parse_out) (ts : res Z) : parser :=
   {| ps_parse := fun _ => out; ps_parsefile := fun _ _ => out; ps_tostring := fun _ _ => ts |}.
 Definition mkenv (gp : res parser) (title : Z) (pd : list (string * Z)) (cell : Z) : env :=
-  {| e_getparser := fun _ => gp; e_title_of := fun _ => title; e_open_w := fun _ => Ok tt; e_default_pdffit := pd; e_default_cell := cell |}.
+  {| e_getparser := fun _ => gp; e_title_of := fun _ => title; e_open_w := fun _ => Ok tt; e_default_pdffit := pd; e_default_cell := cell;
+     e_new_lattice := 900 |}.
 Definition G0 : args := {| g_filename := 1; g_source := 1; g_format := 1 |}.
 """
 
@@ -581,7 +598,8 @@ def model_read_case(ctx, case, real, names):
     try:
         p = getParser(case["format"])
         try:
-            r = p.parse(case["text"]) if case["entry"] == "str" else p.parseFile(real["path"])
+            with quiet():
+                r = p.parse(case["text"]) if case["entry"] == "str" else p.parseFile(real["path"])
             if r is None:
                 res = "Ok None"
             else:
@@ -784,7 +802,7 @@ def run(ctx):
                     "the lattice setter, file open/write) - compared with the implementation on every run (correspondence), not proved",
                     "harness: snapshots (atom identities and data, lattice identity and cell, title, instance dictionary), interning of values"]
     ctx.assumptions += ["statements after the parse call are modelled as total except where the interpreter says otherwise (None result, pdffit not a dictionary)",
-                        "a parser returns a Structure instance or raises (parseLines contract); a None result is modelled but excluded from the eq-fresh theorem",
+                        "a parser returns a Structure instance, None (P_cif without atom sites; handled as an empty Structure()) or raises",
                         "instance attributes other than title / pdffit / _lattice that the user attached (not format metadata) are outside the property: they survive a read",
                         "any exception type counts as a failed read / write",
                         "the any-failure theorem assumes that a pdffit entry of a parse result, when present, is a dictionary (pdffit_entry_ok)"]
